@@ -475,6 +475,8 @@ End Segments.
 
 Section TextProofs.
 Variable valid : text -> bool.
+Variable wrap : range -> bool.
+Variable mlstr : text -> bool.
 
 Definition nat_range (r : range) : nat * nat := (Z.to_nat (fst r), Z.to_nat (snd r)).
 Definition range_ok (len : nat) (r : range) : Prop :=
@@ -501,13 +503,14 @@ Qed.
    the current text with the range replaced by SOME text *)
 Lemma do_rewrite_splice (cur : text) (r : range) (n : text) :
   Z.to_nat (fst r) <= Z.to_nat (snd r) ->
-  exists n', do_rewrite valid cur (r, n) = splice Z cur r n'.
+  exists n', do_rewrite valid wrap mlstr cur (r, n) = splice Z cur r n'.
 Proof.
   intros H. unfold do_rewrite.
   destruct (text_eqb n (slice cur r)); [exists (slice cur r); symmetry; apply splice_slice; exact H|].
   destruct (ignored (ignore_lines cur) r); [exists (slice cur r); symmetry; apply splice_slice; exact H|].
-  destruct (ws_only_change n (slice cur r));
+  destruct (ws_only_change n (slice cur r) && negb (mlstr (slice cur r) || mlstr n));
     [exists (slice cur r); symmetry; apply splice_slice; exact H|].
+  generalize (wrapped wrap r n). intros n1.
   match goal with |- context [first_valid _ _ _ _ _ ?c] => set (choice := c) end.
   assert (Hc : exists n', choice = splice Z cur r n').
   { unfold choice. destruct (_ || _); [eexists; reflexivity|].
@@ -517,15 +520,15 @@ Qed.
 
 Lemma do_all_splices (rws : list (range * text)) :
   Forall (fun rw => Z.to_nat (fst (fst rw)) <= Z.to_nat (snd (fst rw))) rws ->
-  forall src, exists rws', map fst rws' = map fst rws /\ do_all valid src rws = apply_all Z src rws'.
+  forall src, exists rws', map fst rws' = map fst rws /\ do_all valid wrap mlstr src rws = apply_all Z src rws'.
 Proof.
   induction 1 as [|[r n] tl Hr Htl IH]; intros src.
   - exists []. split; reflexivity.
   - cbn [do_all fold_left]. destruct (do_rewrite_splice src r n Hr) as [n' E].
-    destruct (IH (do_rewrite valid src (r, n))) as [rws' [Em Ea]].
+    destruct (IH (do_rewrite valid wrap mlstr src (r, n))) as [rws' [Em Ea]].
     exists ((r, n') :: rws'). split; [cbn [map fst]; rewrite Em; reflexivity|].
-    change (fold_left (do_rewrite valid) tl (do_rewrite valid src (r, n)))
-      with (do_all valid (do_rewrite valid src (r, n)) tl).
+    change (fold_left (do_rewrite valid wrap mlstr) tl (do_rewrite valid wrap mlstr src (r, n)))
+      with (do_all valid wrap mlstr (do_rewrite valid wrap mlstr src (r, n)) tl).
     rewrite Ea. transitivity (apply_all Z (splice Z src r n') rws'); [|reflexivity].
     f_equal. exact E.
 Qed.
@@ -607,7 +610,7 @@ Theorem candidate_is_simultaneous_splice :
   exists asc : list (nrw Z),
     map nkey asc = rev (map nat_range ranges)
     /\ chain_ok Z (length src) 0 asc
-    /\ subn_candidate valid src items = build Z 0 src asc.
+    /\ subn_candidate valid wrap mlstr src items = build Z 0 src asc.
 Proof.
   unfold subn_candidate. fold S.
   assert (Hle : Forall (fun rw : range * text => Z.to_nat (fst (fst rw)) <= Z.to_nat (snd (fst rw)))
@@ -639,7 +642,7 @@ Qed.
    the text after all rewrites (whatever was rewritten around it) *)
 Theorem ignored_line_verbatim :
   forall l, In l (ignore_lines src) -> range_ok (length src) l ->
-  exists pre post, subn_candidate valid src items = pre ++ slice src l ++ post.
+  exists pre post, subn_candidate valid wrap mlstr src items = pre ++ slice src l ++ post.
 Proof.
   intros l Hl Hok.
   destruct candidate_is_simultaneous_splice as [asc [Hk [Hc E]]].
@@ -693,11 +696,11 @@ Proof.
 Qed.
 
 (* ---- T14.1: no match => the source, byte for byte ---- *)
-Theorem no_match_identity (valid : text -> bool) (restore : text -> text -> text) (src tmpl : text)
-        (count : Z) :
+Theorem no_match_identity (valid : text -> bool) (wrap : range -> bool) (mlstr : text -> bool)
+        (restore : text -> text -> text) (src tmpl : text) (count : Z) :
   (forall s, restore s s = s) ->
   subn_items src tmpl count [] = Some []
-  /\ subn_output valid restore src [] = src.
+  /\ subn_output valid wrap mlstr restore src [] = src.
 Proof.
   intros Hr. split.
   - unfold subn_items, take_count. destruct (Z.ltb 0 count); cbn [firstn items_of];
@@ -706,20 +709,21 @@ Proof.
 Qed.
 
 (* the output of subn is the source (rollback) or the restored candidate *)
-Theorem output_cases (valid : text -> bool) (restore : text -> text -> text) (src : text)
-        (items : list (range * text)) :
-  subn_output valid restore src items = src
-  \/ subn_output valid restore src items = restore src (subn_candidate valid src items).
+Theorem output_cases (valid : text -> bool) (wrap : range -> bool) (mlstr : text -> bool)
+        (restore : text -> text -> text) (src : text) (items : list (range * text)) :
+  subn_output valid wrap mlstr restore src items = src
+  \/ subn_output valid wrap mlstr restore src items = restore src (subn_candidate valid wrap mlstr src items).
 Proof.
-  unfold subn_output. destruct (valid (subn_candidate valid src items)); cbn [negb]; [|left; reflexivity].
-  destruct (valid (restore src (subn_candidate valid src items))); cbn [negb]; [right|left]; reflexivity.
+  unfold subn_output. destruct (valid (subn_candidate valid wrap mlstr src items)); cbn [negb]; [|left; reflexivity].
+  destruct (valid (restore src (subn_candidate valid wrap mlstr src items))); cbn [negb]; [right|left]; reflexivity.
 Qed.
 
 (* T14.5 (text), without side condition: the ranges of ignore_lines always lie inside the text *)
-Theorem ignored_lines_survive (valid : text -> bool) (src : text) (items : list (range * text)) :
+Theorem ignored_lines_survive (valid : text -> bool) (wrap : range -> bool) (mlstr : text -> bool)
+        (src : text) (items : list (range * text)) :
   Forall (fun it => range_ok (length src) (fst it)) items ->
   forall l, In l (ignore_lines src) ->
-  exists pre post, subn_candidate valid src items = pre ++ slice src l ++ post.
+  exists pre post, subn_candidate valid wrap mlstr src items = pre ++ slice src l ++ post.
 Proof.
   intros Hok l Hl. apply ignored_line_verbatim; [exact Hok | exact Hl | apply ignore_lines_ok; exact Hl].
 Qed.
@@ -821,42 +825,51 @@ Proof.
 Qed.
 
 (* the complete decision of _do_rewrite: it returns the text unchanged in exactly three situations,
-   otherwise it splices in the replacement (or "pass" for an empty one, or a re-indented copy) *)
-Theorem do_rewrite_decision (valid : text -> bool) (cur : text) (r : range) (n : text) :
+   otherwise it splices in the replacement (with the call's parentheses put back when it replaces a
+   generator that shared them), or "pass" for an empty one, or a re-indented copy *)
+Theorem do_rewrite_decision (valid : text -> bool) (wrap : range -> bool) (mlstr : text -> bool)
+        (cur : text) (r : range) (n : text) :
   let code := slice cur r in
-  (n = code \/ ignored (ignore_lines cur) r = true \/ sig_lines n = sig_lines code ->
-     do_rewrite valid cur (r, n) = cur)
-  /\ (n <> code -> ignored (ignore_lines cur) r = false -> sig_lines n <> sig_lines code ->
-      exists n', In n' (candidates n) /\ do_rewrite valid cur (r, n) = splice Z cur r n').
+  (n = code \/ ignored (ignore_lines cur) r = true
+   \/ (sig_lines n = sig_lines code /\ mlstr code = false /\ mlstr n = false) ->
+     do_rewrite valid wrap mlstr cur (r, n) = cur)
+  /\ (n <> code -> ignored (ignore_lines cur) r = false ->
+      ~ (sig_lines n = sig_lines code /\ mlstr code = false /\ mlstr n = false) ->
+      exists n', In n' (candidates (wrapped wrap r n))
+                 /\ do_rewrite valid wrap mlstr cur (r, n) = splice Z cur r n').
 Proof.
   intros code. unfold do_rewrite. fold code. split.
   - intros H. destruct (text_eqb n code) eqn:E1; [reflexivity|].
     destruct (ignored (ignore_lines cur) r) eqn:E2; [reflexivity|].
-    destruct (ws_only_change n code) eqn:E3; [reflexivity|].
-    exfalso. destruct H as [H|[H|H]].
+    destruct (ws_only_change n code && negb (mlstr code || mlstr n)) eqn:E3; [reflexivity|].
+    exfalso. destruct H as [H|[H|[H [H4 H5]]]].
     + apply text_eqb_spec in H. congruence.
     + discriminate.
-    + apply ws_only_change_spec in H. congruence.
+    + apply ws_only_change_spec in H. rewrite H, H4, H5 in E3. discriminate.
   - intros H1 H2 H3.
     destruct (text_eqb n code) eqn:E1; [apply text_eqb_spec in E1; contradiction|].
     rewrite H2.
-    destruct (ws_only_change n code) eqn:E3; [apply ws_only_change_spec in E3; contradiction|].
+    destruct (ws_only_change n code && negb (mlstr code || mlstr n)) eqn:E3.
+    { exfalso. apply H3. apply andb_true_iff in E3. destruct E3 as [E3 E4].
+      apply ws_only_change_spec in E3. apply negb_true_iff, orb_false_iff in E4. tauto. }
+    generalize (wrapped wrap r n). intros n1.
     match goal with |- context [first_valid _ _ _ _ _ ?c] => set (choice := c) end.
-    assert (Hc : exists n', In n' (candidates n) /\ choice = splice Z cur r n').
-    { unfold choice, candidates. destruct n as [|c n].
+    assert (Hc : exists n', In n' (candidates n1) /\ choice = splice Z cur r n').
+    { unfold choice, candidates. destruct n1 as [|c n1].
       - cbn [orb]. destruct (valid (splice_t cur r [])); [exists []; split; [left; reflexivity | reflexivity]|].
         destruct (valid (splice_t cur r str_pass)).
         + exists str_pass. split; [right; left; reflexivity | reflexivity].
         + exists []. split; [left; reflexivity | reflexivity].
-      - cbn [orb]. exists (c :: n). split; [left; reflexivity | reflexivity]. }
-    destruct (_ && _); [|exact Hc].
+      - cbn [orb]. exists (c :: n1). split; [left; reflexivity | reflexivity]. }
+    cbv beta iota zeta. fold choice.
+    destruct (match n1 with [] => false | _ :: _ => true end && negb (valid choice)); [|exact Hc].
     assert (G : forall extras, incl extras [0; 4; 8; 12] ->
-              exists n', In n' (candidates n) /\ first_valid valid cur r n extras choice = splice Z cur r n').
+              exists n', In n' (candidates n1) /\ first_valid valid cur r n1 extras choice = splice Z cur r n').
     { induction extras as [|x tl IH]; intros Hi; [exact Hc|].
-      cbn [first_valid]. destruct (valid (splice_t cur r (extra_indented x n))).
-      - exists (extra_indented x n). split; [|reflexivity].
+      cbn [first_valid]. destruct (valid (splice_t cur r (extra_indented x n1))).
+      - exists (extra_indented x n1). split; [|reflexivity].
         unfold candidates. right. apply in_or_app. right.
-        apply (in_map (fun x => extra_indented x n)). apply Hi. left. reflexivity.
+        apply (in_map (fun x => extra_indented x n1)). apply Hi. left. reflexivity.
       - apply IH. intros y Hy. apply Hi. right. exact Hy. }
     apply G. apply incl_refl.
 Qed.
